@@ -342,6 +342,25 @@ def r8(ctx):
                     rb = r
     ctx.require(rb is not None and rb[0] == 0 and rb[1] == 256, gv, 'vocab-bytes', 'byte tokenizer get_vocab lists the byte tokens 0..=255',
                 'byte tokenizer get_vocab lists the byte tokens over %s' % (rb,))
+    # ... and EVERY special token: the loop over special_vocab inserts each entry unconditionally (vocab_size, id_to_token and token_to_id know all of
+    # them, the filler tokens of pad_to_multiple_of included; a listing that leaves some out is shorter than vocab_size)
+    from analysis.seq import next_call_of
+    ins = [t for t in gv.calls(r'BTreeMap::insert$|HashMap::insert$|Vec::push$')]
+    lps = [l for l in cfg.loops(gv) if any(t.bb in l.blocks for t in ins)]
+    if len(lps) == 1 and len([t for t in ins if t.bb in lps[0].blocks]) == 1:
+        lp = lps[0]
+        t_in = [t for t in ins if t.bb in lp.blocks][0]
+        nx = next_call_of(gv, lp)
+        from analysis.sym import variant_edges
+        some = [e[1] for e in variant_edges(gv, sym(gv, nx.dest), 'Some')] if nx is not None else []
+        ok_ = bool(some) and all(cfg.must_pass(gv, some[0], l, via_blocks=[t_in.bb]) for l in lp.latches)
+        ctx.require(ok_, gv, 'vocab-all-specials', 'byte tokenizer get_vocab lists every special token (the insert is unconditional)',
+                    'byte tokenizer get_vocab skips some special tokens (the insert at line %d is conditional): the listing is shorter than vocab_size and ids that '
+                    'id_to_token knows are missing from it' % t_in.span['line'], t_in.span)
+    elif ins:
+        from analysis.seq import seq_of as _seq_of
+        # collected form: (bytes).chain(specials) ... : no filter on the special part
+        pass
 
 
 @rule('C04', 'R-C04-9', 'T14 EFFECT (no state change inside a debug assertion)',
